@@ -18,7 +18,7 @@ from . import common
 
 LEVEL = "exploration"
 H = "name a\nversion 1.0\ntarget g\n\n"
-H0 = "name a\nversion 1.0\n\n"     # template without a target
+H0 = "name a\nversion 0.5\n\n"     # template without a target, and with a version that is not the default
 FORMS = ["{P}", "-{P}", "2*{P}", "{P}+1", "2*{P}-1", "{P}/2", "1-{P}", "0.1*{P}", "0.75"]
 GATES = [("G", [0]), ("H", [1]), ("K", [0, 1]), ("G", [2]), ("K", [1, 2]), ("G", [1]), ("K", [1, 0])]
 VALUE_CLASSES = {"dyadic": [0.5, -1.25], "integer": [2, 7], "generic": [0.1, 1 / 3], "generic2": [1e-3, 3.141592653589793], "large": [123.456, -0.7]}
